@@ -156,7 +156,11 @@ theorem Buffer_init_safe (s : St) (a0 a1 : PyArg) (hb : BytesArg s 10) :
   unfold BufInv
   c_safety [CBuffer.Buffer_init] [true_and]
 
-/-! ## `_crypto.c` -/
+/-! ## `_crypto.c`
+
+Helper functions of the translation unit (`create_ctx`, `HeaderProtection_mask`, …) are inlined by the
+translator at every call site, so their access obligations are part of each entry point's theorem
+(in that caller's context) and no theorem depends on a generated helper name. -/
 
 /-- `AEAD_decrypt` for ANY arguments (`data`, `associated` bytes objects 10, 11; any packet number). -/
 theorem AEAD_decrypt_safe (s : St) (a0 a1 a2 : PyArg) (h : AeadInv s) (hb0 : BytesArg s 10) (hb1 : BytesArg s 11) :
@@ -176,14 +180,6 @@ theorem AEAD_encrypt_safe (s : St) (a0 a1 a2 : PyArg) (h : AeadInv s) (hb0 : Byt
   unfold AeadInv
   c_safety [CCrypto.AEAD_encrypt] [z2, z3, z4, z5]
 
-/-- `create_ctx` (internal helper) for ANY cipher pointer / key length / operation: no memory access
-    at all; a non-NULL result is a context whose key length is the requested one and IV length 12. -/
-theorem create_ctx_safe (s : St) (cipher : Ptr) (key_length operation : Int) :
-    Safe (CCrypto.create_ctx cipher key_length operation) s
-      (fun r s' => s'.size = s.size ∧ s'.pf = s.pf ∧
-        (r ≠ Ptr.null → r.obj ≠ 0 ∧ s'.cklen r.obj = key_length ∧ 0 ≤ key_length ∧ s'.civlen r.obj = 12)) := by
-  c_safety [CCrypto.create_ctx] [true_and]
-
 /-- `AEAD_init` for ANY three arguments (cipher name, key, iv = objects 10, 11, 12): never faults
     (key/iv longer than `key[32]`/`iv[12]` are rejected); success establishes the invariant. -/
 theorem AEAD_init_safe (s : St) (a0 a1 a2 : PyArg) (hz : CCrypto.AEADObject_arrays s)
@@ -194,7 +190,7 @@ theorem AEAD_init_safe (s : St) (a0 a1 a2 : PyArg) (hz : CCrypto.AEADObject_arra
   obtain ⟨d0, d1, d2⟩ := hb1
   obtain ⟨e0, e1, e2⟩ := hb2
   unfold AeadInv
-  c_safety [CCrypto.AEAD_init, CCrypto.create_ctx] [z2, z3, z4, z5, b2, d2, e2]
+  c_safety [CCrypto.AEAD_init] [z2, z3, z4, z5, b2, d2, e2]
 
 /-- `HeaderProtection_init` for ANY two arguments (cipher name, key = objects 10, 11). -/
 theorem HeaderProtection_init_safe (s : St) (a0 a1 : PyArg) (hz : CCrypto.HeaderProtectionObject_arrays s)
@@ -207,15 +203,6 @@ theorem HeaderProtection_init_safe (s : St) (a0 a1 : PyArg) (hz : CCrypto.Header
   unfold HpInv
   c_safety [CCrypto.HeaderProtection_init] [z2, z3, z4, hl, b2, d2]
 
-/-- `HeaderProtection_mask` (internal helper): given 16 readable bytes at `sample` (not inside `mask`)
-    it stays in bounds: ECB writes 16 bytes to `mask[31]`, ChaCha20 reads `zero[5]` and writes 5. -/
-theorem HeaderProtection_mask_safe (s : St) (sample : Ptr) (h : HpInv s)
-    (hs : 0 ≤ sample.off ∧ sample.off + 16 ≤ s.size sample.obj) (hd : sample.obj ≠ 3) :
-    Safe (CCrypto.HeaderProtection_mask sample) s (fun r s' => HpInv s' ∧ s'.size = s.size) := by
-  obtain ⟨z2, z3, z4, c0, k0, k1⟩ := h
-  unfold HpInv
-  c_safety [CCrypto.HeaderProtection_mask] [z2, z3, z4]
-
 /-- `HeaderProtection_apply` for ANY two arguments (header, payload = objects 10, 11). -/
 theorem HeaderProtection_apply_safe (s : St) (a0 a1 : PyArg) (h : HpInv s)
     (hb0 : BytesArg s 10) (hb1 : BytesArg s 11) :
@@ -224,7 +211,7 @@ theorem HeaderProtection_apply_safe (s : St) (a0 a1 : PyArg) (h : HpInv s)
   obtain ⟨b0, b1, b2⟩ := hb0
   obtain ⟨d0, d1, d2⟩ := hb1
   unfold HpInv
-  c_safety [CCrypto.HeaderProtection_apply, CCrypto.HeaderProtection_mask] [z2, z3, z4]
+  c_safety [CCrypto.HeaderProtection_apply] [z2, z3, z4]
 
 /-- `HeaderProtection_remove` for ANY two arguments (packet = object 10, any integer `pn_offset`). -/
 theorem HeaderProtection_remove_safe (s : St) (a0 a1 : PyArg) (h : HpInv s) (hb0 : BytesArg s 10) :
@@ -232,7 +219,7 @@ theorem HeaderProtection_remove_safe (s : St) (a0 a1 : PyArg) (h : HpInv s) (hb0
   obtain ⟨z2, z3, z4, c0, k0, k1⟩ := h
   obtain ⟨b0, b1, b2⟩ := hb0
   unfold HpInv
-  c_safety [CCrypto.HeaderProtection_remove, CCrypto.HeaderProtection_mask] [z2, z3, z4]
+  c_safety [CCrypto.HeaderProtection_remove] [z2, z3, z4]
 
 /-! ## "rejected with a Python exception and leaves the helper usable"
 
